@@ -130,9 +130,16 @@ func extractHasVals(h *gripql.GraphStatement_Has) []string {
 				vals = []string{l}
 			}
 		case gripql.Condition_WITHIN:
-			v := val.([]interface{})
-			for _, x := range v {
-				vals = append(vals, x.(string))
+			// anything but a list of strings cannot name ids or labels: no
+			// values, the statement is then left to the has() step
+			if v, ok := val.([]interface{}); ok {
+				for _, x := range v {
+					if str, ok := x.(string); ok {
+						vals = append(vals, str)
+					} else {
+						return []string{}
+					}
+				}
 			}
 		default:
 			// do nothing
